@@ -7,8 +7,10 @@ Decided (no oracle, only equality between two runs of the REAL loader on two ren
                   (registrations, property keys with kinds, required set, union members) is the same for EVERY
                   declaration order of components.schemas;
   property order  the two orders of an object's properties give the same fields.
-Not decided: JSON vs YAML block/flow renderings (that equivalence lives in PyYAML) and path order (documents without
-name collisions share no order-sensitive state between operations except the operationId counter, which is C07's).
+  path order      two / three paths whose operations (symbolic operationIds) share one component parameter with an inline
+                  enum / array-of-enum / object schema: every order of `paths` gives each operation the same parameters
+                  and registers the same set of schemas.
+Not decided: JSON vs YAML block/flow renderings (that equivalence lives in PyYAML).
 """
 from __future__ import annotations
 
@@ -269,11 +271,126 @@ def mk_resp_order(k):
     return ResponseOrder(k)
 
 
+def k_path_order(P, ids, kind, order):
+    """two (three) paths, one GET each, all using the shared component parameter `Sort`; returns per operation
+    (path -> [(parameter name, location, schema name, schema type, items schema name)]) and the set of schema names
+    registered while parsing"""
+    from importlib import import_module
+
+    ops_mod = import_module(P.__name__ + ".core.loader.operations")
+    ctx_mod = import_module(P.__name__ + ".core.parsing.context")
+    D = hook.SDict if c07._inst(P) else dict
+    sort_schema = {"enum_array": D(type="array", items=D(type="string", enum=["asc", "desc"])), "inline_object": D(type="object", properties=D(by=D(type="string"))),
+                   "enum": D(type="string", enum=["asc", "desc"]), "string": D(type="string")}[kind]
+    comp = D()
+    comp["Sort"] = D({"name": "sort", "in": "query", "schema": sort_schema})
+    paths = D()
+    names = ["/p%d" % i for i in range(len(ids))]
+    for i in order:
+        paths[names[i]] = D(get=D(operationId=ids[i], parameters=[D({"$ref": "#/components/parameters/Sort"})], responses=c07.OK_RESP))
+    ctx = ctx_mod.ParsingContext()
+    ctx.raw_spec_components = D(parameters=comp)
+    ops = ops_mod.parse_operations(paths, comp, D(), D(), ctx)
+    out = []
+    for n in names:
+        hit = [o for o in ops if o.path == n]
+        if len(hit) != 1:
+            out.append(None)
+            continue
+        out.append([(p.name, p.param_in, p.schema.name if p.schema else None, p.schema.type if p.schema else None,
+                     p.schema.items.name if (p.schema and p.schema.items) else None) for p in hit[0].parameters])
+    return (out, [k for k in ctx.parsed_schemas.keys()])
+
+
+class PathOrder(Obligation):
+    """Reordering the entries of `paths` changes neither the parameters of an operation nor the set of schemas."""
+
+    functions = ["pyopenapi_gen.core.loader.operations.parser:parse_operations", "pyopenapi_gen.core.loader.parameters.parser:parse_parameter",
+                 "pyopenapi_gen.core.loader.parameters.parser:resolve_parameter_node_if_ref"]
+    KINDS = ["enum_array", "inline_object", "enum", "string"]
+
+    def __init__(self, lens):
+        self.lens = tuple(lens)
+        self.name = "path_order/lens=%s" % "x".join(map(str, lens))
+        self.bounds = {"paths": len(lens), "operationId_lengths": list(lens), "shared parameter schema": self.KINDS, "orders": "all permutations compared with the declaration order"}
+        self.perms = list(itertools.permutations(range(len(lens))))
+
+    def make_inputs(self, e):
+        from symx.core import mk_sym_str
+
+        from symx.core import ranges_of_pts
+
+        alpha = ranges_of_pts([ord(c) for c in "abAB12"])
+        inp = {"id%d" % i: mk_sym_str(n, "id%d" % i, alpha) for i, n in enumerate(self.lens)}
+        # the property speaks about documents without name collisions: operationIds that stay distinct ignoring case
+        for i in range(len(self.lens)):
+            for j in range(i + 1, len(self.lens)):
+                if self.lens[i] == self.lens[j]:
+                    e.assume(s_not(inp["id%d" % i].lower() == inp["id%d" % j].lower()))
+        inp["kind"] = self.KINDS[e.choose(len(self.KINDS), "kind")]
+        inp["order"] = e.choose(len(self.perms), "order")
+        return inp
+
+    def _run(self, P, inp):
+        ids = [inp["id%d" % i] for i in range(len(self.lens))]
+        return (call_catching(k_path_order, P, ids, inp["kind"], self.perms[0]), call_catching(k_path_order, P, ids, inp["kind"], self.perms[inp["order"]]))
+
+    def run_sym(self, inp):
+        return self._run(c07._I(), inp)
+
+    def run_real(self, inp):
+        return self._run(c07._R(), inp)
+
+    def normalise(self, r):
+        def n(x):
+            if isinstance(x, Raised):
+                return x
+            ops, names = x
+            return ([[tuple(c07._simp(v) for v in p) for p in o] if o is not None else None for o in ops], sorted(str(c07._simp(k)) for k in names))
+
+        return (n(r[0]), n(r[1]))
+
+    def prop(self, inp, r):
+        a, b = r
+        if isinstance(a, Raised) or isinstance(b, Raised):
+            return isinstance(a, Raised) and isinstance(b, Raised)
+        (oa, na), (ob_, nb) = a, b
+
+        def eq(x, y):
+            if x is None or y is None or isinstance(x, (int, bool)) or isinstance(y, (int, bool)):
+                return x is y or x == y
+            return len(x) == len(y) and bool(x == y)
+
+        if len(oa) != len(ob_):
+            return False
+        for x, y in zip(oa, ob_):
+            if (x is None) != (y is None):
+                return False
+            if x is None:
+                continue
+            if len(x) != len(y) or not all(all(eq(u, v) for u, v in zip(p, q)) for p, q in zip(x, y)):
+                return False
+        if len(na) != len(nb):
+            return False
+        return all(any(eq(k, k2) for k2 in nb) for k in na)
+
+    def describe_violation(self, inp, r):
+        n = self.normalise(r)
+        return "operationIds %r, shared parameter schema %s: declaration order gives %r, order %r gives %r" % (
+            [c07._simp(inp["id%d" % i]) for i in range(len(self.lens))], inp["kind"], n[0], self.perms[inp["order"]], n[1])
+
+
+def mk_path_order(lens):
+    return PathOrder(lens)
+
+
 def specs(tier):
     q = tier == "quick"
-    out = [(MOD, "mk_scalar", (False,)), (MOD, "mk_scalar", (True,)), (MOD, "mk_resp_order", (2,))]
+    out = [(MOD, "mk_path_order", ((1, 1),)), (MOD, "mk_scalar", (False,)), (MOD, "mk_scalar", (True,)), (MOD, "mk_resp_order", (2,))]
     if not q:
         out.append((MOD, "mk_resp_order", (3,)))
+        out.append((MOD, "mk_path_order", ((2, 1),)))
+        out.append((MOD, "mk_path_order", ((1, 1, 1),)))
     for n in ((1, 2) if q else (1, 2, 3)):
         out.append((MOD, "mk_prop_order", (n,)))
     for t, (n, _, _, _) in c02.TEMPLATES.items():
@@ -309,6 +426,8 @@ def replay(path):
     parts = v["obligation"].split("/")
     if parts[0].startswith("status_key_typing"):
         ob = ScalarTyping(parts[0].endswith("+default"))
+    elif parts[0] == "path_order":
+        ob = PathOrder([int(x) for x in parts[1].split("=")[1].split("x")])
     elif parts[0] == "response_key_order":
         ob = ResponseOrder(int(parts[1].split("=")[1]))
     elif parts[0] == "property_order":
